@@ -218,6 +218,17 @@ run_cmd do
         return os.path.join(LEAN, '.lake', 'build', 'bin', exe)
 
     # ---------------------------------------------------------------- C++
+    def _gc_bins(self, name):
+        """remove stale executables of this harness (older than 12 h only: another check run, e.g. against a
+        different tree, may be using a sibling binary right now)"""
+        now = time.time()
+        for old in glob.glob(os.path.join(BUILD, 'bin', name + '-*')):
+            try:
+                if now - os.path.getmtime(old) > 12 * 3600:
+                    os.remove(old)
+            except OSError:
+                pass
+
     def cxx(self, name, sources, flags=(), libs=(), cxx='g++', std='c++17', deps_key=''):
         """compile+link a harness against the *current* repo tree; cached by hash of the preprocessed sources"""
         os.makedirs(os.path.join(BUILD, 'bin'), exist_ok=True)
@@ -233,11 +244,7 @@ run_cmd do
             h.update(out.encode())
         exe = os.path.join(BUILD, 'bin', '%s-%s' % (name, h.hexdigest()[:16]))
         if not os.path.exists(exe):
-            for old in glob.glob(os.path.join(BUILD, 'bin', name + '-*')):
-                try:
-                    os.remove(old)
-                except OSError:
-                    pass
+            self._gc_bins(name)
             tmp = exe + '.tmp%d' % os.getpid()
             rc, out, err = sh(base + list(sources) + ['-o', tmp] + list(libs), timeout=1800)
             if rc != 0:
@@ -302,11 +309,7 @@ run_cmd do
         h = hashlib.sha256((' '.join(objs) + ' '.join(flags) + ' '.join(libs)).encode()).hexdigest()[:16]
         exe = os.path.join(BUILD, 'bin', '%s-%s' % (name, h))
         if not os.path.exists(exe):
-            for old in glob.glob(os.path.join(BUILD, 'bin', name + '-*')):
-                try:
-                    os.remove(old)
-                except OSError:
-                    pass
+            self._gc_bins(name)
             tmp = exe + '.tmp%d' % os.getpid()
             rc, out, err = sh([cxx] + list(flags) + list(objs) + ['-o', tmp] + list(libs), timeout=1800)
             if rc != 0:
